@@ -157,7 +157,7 @@ pub fn run(cfg: &Cfg) -> Report {
     });
     // late uncatchable failures: recursive stream folds that run into the stream size limit after
     // service results were applied, and shadowing errors late in a script
-    let late = crate::mon::late::run_late_failures(cfg, cfg.scale(300, 6000));
+    let late = crate::mon::late::run_late_failures(cfg, cfg.scale(160, 4000));
     stats.merge(late);
     Report {
         prop: "C02",
